@@ -441,7 +441,12 @@ impl Runner {
                     _ => "BADOP".into(),
                 }
             }
-            ["D"] => format!("d {}", self.dump()),
+            // the hook dump, followed by what the PUBLIC accessors report for the same state (the model
+            // prints both from its own state: an accessor that reads the wrong field shows up here)
+            ["D"] => match self.screen() {
+                Some(s) => format!("d {} pub {}", self.dump(), pub_str(s)),
+                None => format!("d {}", self.dump()),
+            },
             ["E"] => match &self.parser {
                 Some(AnyParser::Plain(_)) => "*".into(),
                 Some(AnyParser::Rec(p)) => {
@@ -478,7 +483,13 @@ impl Runner {
                         "C19" => {
                             let mut recv = oracle::fresh_like(&s);
                             recv.process(&s.state_formatted());
-                            oracle::c19(&s, recv.screen()).or_else(|| oracle::c19(&s, &s.clone()))
+                            let mut res = oracle::c19(&s, recv.screen()).or_else(|| oracle::c19(&s, &s.clone()));
+                            for k in 0..2 {
+                                if let Some(Some(p)) = self.slots.get(k) {
+                                    res = res.or_else(|| oracle::c19_concat(&s, p));
+                                }
+                            }
+                            res
                         }
                         "C02" => {
                             let _ = &slot0;
@@ -682,6 +693,24 @@ pub fn pen_str(s: &vt100::Screen) -> String {
         + 8 * u8::from(s.underline())
         + 16 * u8::from(s.inverse());
     format!("{},{},{}", color_str(s.fgcolor()), color_str(s.bgcolor()), mode)
+}
+
+/// the public accessors that are not cell queries, in one line
+pub fn pub_str(s: &vt100::Screen) -> String {
+    let (r, c) = s.size();
+    let (cr, cc) = s.cursor_position();
+    format!(
+        "{}{} {} {},{} {},{} {} {}",
+        u8::from(s.alternate_screen()),
+        u8::from(s.hide_cursor()),
+        modes_str(s),
+        r,
+        c,
+        cr,
+        cc,
+        s.scrollback(),
+        pen_str(s)
+    )
 }
 
 pub fn modes_str(s: &vt100::Screen) -> String {
